@@ -146,6 +146,14 @@ def run(tier):
         rep.add_mc("VoronoiFPS refines FPS (4 points on {0,1,2,5}^2, 3 switching points)", r)
         r = core.model_check("VoronoiFPS.tla", "mc/VoronoiFPS_allff.cfg", timeout=3600, heap="16g")
         rep.add_mc("VoronoiFPS refines FPS, every calibration outcome k/128 and 1.0, 3 points on {0,1,3}^2", r)
+    # random exploration of larger instances (8 points on a 6x6 lattice, 4 switching points): tlc -simulate under a time budget
+    rs = core.run_tlc("VoronoiFPS.tla", cfg="mc/VoronoiFPS_sim.cfg", workers=core.NCPU, simulate="num=%d" % (250 if quick else 20000), depth=17,
+                      extra=["-seed", str(core.seed() + 7)], timeout=300 if quick else 3600, budget_ok=True, heap="8g")
+    if rs["error"]:
+        raise core.Machinery("VoronoiFPS simulation: %s\n%s" % (rs["error"], core.tlc_error_excerpt(rs, 30)))
+    rep.cov["parts"]["VoronoiFPS simulation, 8 points on {0,1,2,5,6,9}^2"] = {"states_checked": rs.get("sim_states", 0), "behaviours": rs.get("sim_traces", 0), "result": "no error"}
+    rep.cov["states"] += rs.get("sim_states", 0)
+    rep.cov["transitions"] += rs.get("sim_states", 0)
     rep.cov["exhaustive"] = True
     for name, inv in (("vac1", "NeverPrunes"), ("vac2", "NeverSparse")):
         r = core.model_check("VoronoiFPS.tla", "mc/VoronoiFPS_%s.cfg" % name, timeout=1200, coverage=False)
